@@ -498,8 +498,9 @@ class Ctx:
             'coverage': cov, 'assumptions': self.assumptions + self.notes,
             'wall_s': round(time.time() - self.t0, 2), 'violations': len(self.violations),
         }
-        os.makedirs(os.path.join(VERIF, 'evidence'), exist_ok=True)
-        with open(os.path.join(VERIF, 'evidence', self.pid + '.json'), 'w') as fh:
+        evdir = os.environ.get('VERIF_EVIDENCE_DIR') or os.path.join(VERIF, 'evidence')
+        os.makedirs(evdir, exist_ok=True)
+        with open(os.path.join(evdir, self.pid + '.json'), 'w') as fh:
             json.dump(ev, fh, indent=1, default=str)
         for ln in lines:
             print(ln)
